@@ -957,7 +957,12 @@ func (e *Engine) Build(n *Node) z.ZogSchema {
 			s.Required().Optional() // the later call counts
 		}
 		if n.Def != nil {
-			s.Default(e.own("default", n, Populate(TypeOf(n), *n.Def).Interface()))
+			dv := Populate(TypeOf(n), *n.Def)
+			if dv.Len() == 0 {
+				// an empty default that owns spare storage (`buf[:0]`, `make([]T, 0, n)`)
+				dv = reflect.MakeSlice(TypeOf(n), 0, 4)
+			}
+			s.Default(e.own("default", n, dv.Interface()))
 		}
 		for i, t := range n.Tests {
 			o := testOpts(t)
